@@ -76,7 +76,7 @@ def make_handle(kind, d, disk, settings, create=True):
     if kind == 'cache':
         return diskcache.Cache(d, disk=dk, **kw)
     if kind == 'fanout':
-        return diskcache.FanoutCache(d, shards=SHARDS, disk=dk, **kw)
+        return diskcache.FanoutCache(d, shards=SHARDS, timeout=5, disk=dk, **kw)     # generous timeout: no false Timeout under load
     if kind == 'deque':
         if create:
             return diskcache.Deque.fromcache(diskcache.Cache(d, disk=dk, **dict(kw, eviction_policy='none')))
@@ -91,7 +91,7 @@ def make_handle(kind, d, disk, settings, create=True):
             dj.configure()
         from diskcache.djangocache import DjangoCache
         # Django builds the backend from its configuration on every start: OPTIONS are the creation settings
-        return DjangoCache(d, {'SHARDS': SHARDS, 'OPTIONS': dict(settings, disk=dk) if create else {'disk': dk}})
+        return DjangoCache(d, {'SHARDS': SHARDS, 'DATABASE_TIMEOUT': 5, 'OPTIONS': dict(settings, disk=dk) if create else {'disk': dk}})
     raise ValueError(kind)
 
 
@@ -597,7 +597,7 @@ def golden(ctx, res):
         res.violations.append(fw.Violation(sig, desc, dict({'check': 'golden'}, **extra)))
     fresh = diskcache.Cache(os.path.join(work, 'fresh'), **{k: doc['cache_settings'][k] for k in ('tag_index', 'eviction_policy')})
     fresh.close()
-    now_schema = schema(os.path.join(work, 'fresh', 'cache.db'))
+    now_schema = schema(os.path.join(work, 'fresh', core.DBNAME))
     if now_schema != released_schema:
         diff = [x for x in now_schema if x not in released_schema] + [x for x in released_schema if x not in now_schema]
         bad('golden_schema', 'a cache created by the current code has another schema than the released one: %r' % (diff[:2],))
@@ -713,7 +713,7 @@ def cdict(pairs, table):
 
 
 def settings_table(d):
-    con = sqlite3.connect(os.path.join(d, 'cache.db'))
+    con = sqlite3.connect(os.path.join(d, core.DBNAME))
     try:
         return con.execute('SELECT key, value FROM Settings ORDER BY rowid').fetchall()
     finally:
